@@ -37,7 +37,7 @@ VERIF = os.path.dirname(HERE)
 
 # deviation switches of spec/AyDump.tla that reproduce the code as it is (every one is a finding on the pinned tree)
 ASIS = ["ElideDelDefault", "ElideNewDefault", "ElideSafeDefault", "ElideSafeParent", "PlainTagNotPushed",
-        "SafeTagTrue", "NullDropsFlags", "ClearNoValue", "PathNoRefWraps", "ReprQuoting"]
+        "SafeTagTrue", "KindTagNoMd", "NullDropsFlags", "ClearNoValue", "PathNoRefWraps", "ReprQuoting"]
 INVS = ["Inv_DumpOk", "Inv_Interchangeable", "Inv_SameValue", "Inv_SameMd", "Inv_DumpStable"]
 
 FINDINGS = {  # switch -> (finding id, call site, what fails)
@@ -58,6 +58,9 @@ FINDINGS = {  # switch -> (finding id, call site, what fails)
                           "container's entry and omit a flag their parent overrides (`!metadata{{'allow_new': False, ..}} {a: !new [ !notnew {..} ]}`)"),
     "SafeTagTrue": ("F11g", "awesomeyaml/yaml.py _node_representer tags_to_infer['safe'][True]",
                     "a lone safe=True is written as `!safe`, for which no constructor exists: the dumped text does not parse"),
+    "KindTagNoMd": ("F11l", "awesomeyaml/yaml.py add_constructor('!append' / '!prev' / '!include' / '!import') without a ':' multi-constructor",
+                    "`!append`, `!prev`, `!include`, `!import` below a tagged container receive its priority; the dump writes `!append:<enc>` "
+                    "for which no constructor exists: the dumped text does not parse (`a: !force {b: !append [1]}`)"),
     "NullDropsFlags": ("F11h", "awesomeyaml/yaml.py _node_representer (data is None branch)",
                        "None is always written as a bare `!null`: `!force ~`, `!del` (remove-this-key), `!metadata{{..}} ~` lose flags and user metadata"),
     "ClearNoValue": ("F11i", "awesomeyaml/nodes/clear.py (no value) via ConfigNode.ayns.represent",
@@ -116,16 +119,20 @@ def eff_safe(n):
     return n["safe"] != "F" and n["isafe"] != "F" and n["dsafe"] == "T"
 
 
+def kind_class(k):
+    return "eval" if k == "fstr" else k
+
+
 def obs(n):
     comp = n["k"] in COMPOSED
-    return {"k": n["k"], "v": n["v"], "fn": n["fn"], "ref": n["ref"], "md": sorted(map(json.dumps, n["md"])), "pr": eff_pr(n),
+    return {"k": kind_class(n["k"]), "v": n["v"], "fn": n["fn"], "ref": n["ref"], "md": sorted(map(json.dumps, n["md"])), "pr": eff_pr(n),
             "safe": eff_safe(n) if n["k"] in SAFEK else True,
             "ksafe": ((n["safe"] if n["safe"] != "N" else n["isafe"]) != "F") if comp else True,
             "ch": [[k, obs(c)] for k, c in n["ch"]]}
 
 
 def data_of(n):
-    return {"k": n["k"], "v": n["v"], "fn": n["fn"], "ref": n["ref"], "ch": [[k, data_of(c)] for k, c in n["ch"]]}
+    return {"k": kind_class(n["k"]), "v": n["v"], "fn": n["fn"], "ref": n["ref"], "ch": [[k, data_of(c)] for k, c in n["ch"]]}
 
 
 def md_tree(n):
@@ -731,7 +738,7 @@ MUTATIONS = [  # (deviation switch or design mutation, universe, source safety)
     ("ElideDelDefault", "U_MutDel", True), ("ElideNewDefault", "U_MutNew", True),
     ("ElideSafeDefault", "U_MutSafe", True), ("ElideSafeParent", "U_MutSafe", True), ("PlainTagNotPushed", "U_MutNew", True),
     ("SafeTagTrue", "U_MutSafe", False), ("NullDropsFlags", "U_MutKinds", True), ("ClearNoValue", "U_MutKinds", True),
-    ("PathNoRefWraps", "U_MutKinds", True), ("ReprQuoting", "U_MutKinds", True),
+    ("PathNoRefWraps", "U_MutKinds", True), ("ReprQuoting", "U_MutKinds", True), ("KindTagNoMd", "U_MutKindsP", True),
     ("mut:DropMdWithFlag", "U_MutKinds", True),
 ]
 
@@ -952,7 +959,8 @@ def run(prop, tier, seed, replay, keep):
             real = dict(t["real"])
             real["sv"] = bool(v["lsv"]) and t.get("xsame", True)
             real["md"] = bool(v["lmd"])
-            real["ic"] = bool(v["lic"]) and real.pop("ctx")
+            ctx_ok = real.pop("ctx")
+            real["ic"] = bool(v["lic"]) and ctx_ok
             if t["out"] != "ok":
                 real.update(sv=False, md=False, ic=False, st=False)
             mb = set()
@@ -963,6 +971,9 @@ def run(prop, tier, seed, replay, keep):
                     mb = {"reparse", "sv", "md", "st", "ic"}
                 else:
                     mb = {k for k, ok in (("sv", v["msv"]), ("md", v["mmd"]), ("st", v["mst"]), ("ic", v["mic"])) if not ok}
+                    # a recorded history that tells the pair apart, re-done by TLC on the logged trees with the same result
+                    if not v["cbad"] and any(not c["same"] for c in t["ctx"]):
+                        mb.add("ic")
             cls = classify(real, mb, v["cmp"] == "equal", True)
             if cls == "viol" and v["cmp"] == "differs" and _only_repr_quoting(t):
                 cls = "known"
